@@ -74,6 +74,9 @@ func writeEvidence(prop, tier string, seed int64, agg *summary, distinct int, wa
 		"violations": violations,
 	}
 	dir := filepath.Join(verifDir(), "evidence")
+	if v := os.Getenv("VERIF_REPLAY_DIR"); v != "" {
+		dir = filepath.Join(v, "evidence") // runs against scratch copies must not touch the committed evidence
+	}
 	if err := os.MkdirAll(dir, 0o755); err != nil {
 		return err
 	}
